@@ -6,3 +6,4 @@ import RSVerif.Properties.C12
 #print axioms RS.drop_new_round_enc
 #print axioms RS.drop_new_round_dec
 #print axioms RS.consecutive_rounds
+#print axioms RS.source_accessors
